@@ -108,15 +108,17 @@ def _narrow(e: ast.AST):
     if isinstance(e, ast.Subscript) and isinstance(e.slice, ast.Tuple) and len(e.slice.elts) >= 2 and not getattr(e, "_tuple_elt", False):
         elts = e.slice.elts
         last = elts[-1]
+        # x[..., K] addresses the last axis; x[:, K] addresses axis 1 — the last one only for a single batch axis
+        ax = "-1" if any(isinstance(x, ast.Constant) and x.value is Ellipsis for x in elts[:-1]) else str(len(elts) - 1)
         if isinstance(last, ast.Slice) and last.lower is not None and last.upper is not None and last.step is None:
             try:
                 if to_rf(last.upper, _name_atom) - to_rf(last.lower, _name_atom) != RF.const(1):
                     return None
             except NotPoly:
                 return None
-            return dump(e.value), "-1", last.lower, e.value
+            return dump(e.value), ax, last.lower, e.value
         if not isinstance(last, ast.Slice):
-            return dump(e.value), "-1", last, e.value
+            return dump(e.value), ax, last, e.value
     return None
 
 
@@ -172,12 +174,12 @@ def r2_pairing(repo: Repo, rep):
         wrt = g.args[1] if len(g.args) > 1 else kwarg(g, "inputs")
         v = dump(wrt)
         comp_i = dump(nr2[2]) if nr2 is not None else None
-        ok_comp = nr2 is not None and nr2[1] in ("-1", "1") and comp_i is not None and _component_loop(p, comp_i, v)
+        ok_comp = nr2 is not None and nr2[1] == "-1" and comp_i is not None and _component_loop(p, comp_i, v)
         rep.check(R, ok_comp, fi.site(g), fi.fq, "gradient component i (last axis) is accumulated, i over range(variable dimension)", f"accumulated term {dump(term)[-80:]}", "gradient component")
         inner = _full_sum(g.args[0]) if g.args else None
         nr = _narrow(inner) if inner is not None else None
-        if nr is None or nr[0] != mo or nr[1] not in ("-1", "1"):
-            rep.violation(R, fi.site(g), fi.fq, "a single output component (last axis) is differentiated per (variable, i)", dump(g.args[0])[:80] if g.args else "", "differentiated component")
+        if nr is None or nr[0] != mo or nr[1] != "-1":
+            rep.violation(R, fi.site(g), fi.fq, "a single output component (last axis, for every number of batch axes) is differentiated per (variable, i)", dump(g.args[0])[:80] if g.args else "", "differentiated component")
             continue
         try:
             idx = to_rf(nr[2], _name_atom)
@@ -252,8 +254,8 @@ def r2_pairing(repo: Repo, rep):
             nr1 = _narrow(inner) if inner is not None else None
             if nr1 is not None:
                 i1, i2 = dump(nr1[2]), dump(nr2[2])
-                good = i1 == i2 and _component_loop(p, i1, v) and nr1[1] in ("-1", "1") and nr2[1] in ("-1", "1")
-                detail = f"differentiated component {i1}, accumulated {i2}"
+                good = i1 == i2 and _component_loop(p, i1, v) and nr1[1] == "-1" and nr2[1] == "-1"
+                detail = f"differentiated component {i1} (axis {nr1[1]}), accumulated {i2} (axis {nr2[1]}); both must address the last axis"
                 first = nr1[3]
                 fresh = isinstance(first, ast.Subscript) and isinstance(first.value, ast.Call) and attr_chain(first.value.func) == "torch.autograd.grad"
                 if fresh:
